@@ -436,11 +436,22 @@ pub fn c16(args: &Args) -> Acc {
             let m = models[(idx / 8) as usize];
             let mut cfg = DispCfg::full(m, if idx % 3 == 0 || !m.supports(Tr::L1S.kind()) { Tr::L1P8 } else { Tr::L1S });
             cfg.ori = Ori((idx % 8) as u8);
+            // every fourth configuration through the real SPI transport with a very small staging
+            // buffer (the 6 parameter bytes of the scroll definition are longer than it)
+            if idx % 4 == 1 && m.supports(crate::rig::Kind::Serial) {
+                cfg.tr = Tr::Spi;
+                cfg.spi_buf = [4usize, 5, 3, 7][(idx as usize / 4) % 4].max(if m.bits() == 16 { 2 } else { 3 });
+            }
             let fh = m.fb().1 as u64;
             let Opened::Ready(mut s) = Session::open(&cfg) else {
                 a.violate("boundary", idx, "init", "init failed".to_string(), cfg.to_json());
                 return;
             };
+            // every third configuration is asleep while the scroll calls are made (they must still be sent)
+            if idx % 3 == 2 {
+                let _ = s.step(&Op::Sleep);
+                a.count("configurations_scrolled_while_asleep", 1);
+            }
             a.seen("heights", format!("{}", fh));
             a.seen("orientations", cfg.ori.name());
             let mut vals: Vec<u64> = vec![0, 1, 2, 3, 255, 256, 257, 32767, 32768, 32769, 40000, 65533, 65534, 65535];
@@ -714,7 +725,7 @@ pub fn c18(args: &Args) -> Acc {
                     1 => {
                         // write_raw with random instruction and 0..64 parameter bytes
                         let ins = rng.next() as u8;
-                        let plen = rng.range(0, 64) as usize;
+                        let plen = if rng.chance(1, 8) { rng.range(65, 300) } else { rng.range(0, 64) } as usize;
                         let params: Vec<u8> = (0..plen).map(|_| rng.next() as u8).collect();
                         let tl = Tl::new(8);
                         let mut di = L1::<u8, KSerial>::new(&tl);
